@@ -1484,11 +1484,14 @@ class Repository:
                 with glock:
                     digests = files_digests[file_path]
                     digests.remove(digest)
-
-                if not digests:
-                    logger.info('Finished writing file %s', file_path)
-                    with glock:
+                    # Must be decided under the same lock, otherwise two loader
+                    # threads can both see the empty set
+                    finished = not digests
+                    if finished:
                         restore_path, metadata = files_metadata.pop(file_path)
+
+                if finished:
+                    logger.info('Finished writing file %s', file_path)
                     self.restore_metadata(restore_path, metadata)
                     finished_tracker.update()
 
